@@ -623,6 +623,10 @@ RULE = ("9 deterministic workflows (3-step chain, fan-out/fan-in with collect_ev
         "and restarted once more) x all schedules of all phases within the deviation bound; the "
         "resumed handler must end completed with the uninterrupted result, and a log that already contains the terminal tick must be "
         "finalized without running a step; non-trivial = executions that actually restarted")
+from vmc.tables import _ROUND6 as _R6  # noqa: E402
+
+RULE += _R6["C13"]
+
 
 
 def run(tier: str, seed: int) -> Any:
